@@ -228,7 +228,7 @@ pub fn run(ctx: &Ctx) {
             let o = sites.sites.iter().find(|s| s.2 == label).unwrap().0;
             b[o..o + 4].copy_from_slice(ids[c[0]]);
             let set: std::collections::HashSet<String> = lists[c[1]].iter().map(|s| s.to_string()).collect();
-            let f = dlt_core::filtering::ProcessedDltFilterConfig { min_log_level: None, app_ids: if c[2] == 0 { Some(set.clone()) } else { None }, context_ids: if c[2] == 1 { Some(set.clone()) } else { None }, ecu_ids: if c[2] == 2 { Some(set.clone()) } else { None }, app_id_count: 0, context_id_count: 0 };
+            let f = crate::common::PF { min_log_level: None, app_ids: if c[2] == 0 { Some(set.clone()) } else { None }, context_ids: if c[2] == 1 { Some(set.clone()) } else { None }, ecu_ids: if c[2] == 2 { Some(set.clone()) } else { None }, app_id_count: 0, context_id_count: 0 }.build();
             let expect = clean_field(&b[o..o + 4]);
             loc.evals += 1;
             loc.transitions += 1;
@@ -340,7 +340,7 @@ pub fn run(ctx: &Ctx) {
             let mut input = junks[c[2]].clone();
             input.extend_from_slice(&b[..cut]);
             let missing = b.len() - cut;
-            let filter = if c[4] == 1 { Some(dlt_core::filtering::ProcessedDltFilterConfig { min_log_level: None, app_ids: None, ecu_ids: Some(["ECU1".to_string(), "ECU".to_string()].into_iter().collect()), context_ids: None, app_id_count: 0, context_id_count: 0 }) } else { None };
+            let filter = if c[4] == 1 { Some(crate::common::PF { min_log_level: None, app_ids: None, ecu_ids: Some(["ECU1".to_string(), "ECU".to_string()].into_iter().collect()), context_ids: None, app_id_count: 0, context_id_count: 0 }.build()) } else { None };
             loc.evals += 1;
             loc.transitions += 1;
             loc.traces += 1;
@@ -378,7 +378,7 @@ pub fn run(ctx: &Ctx) {
             let filter = if c[2] == 1 {
                 let hdr = clean_field(&b[sites.sites.iter().find(|s| s.2 == "ecu").unwrap().0..][..4]);
                 let st = clean_field(&b[12..16]);
-                Some(dlt_core::filtering::ProcessedDltFilterConfig { min_log_level: None, app_ids: None, ecu_ids: Some([hdr, st, "ECU".to_string()].into_iter().collect()), context_ids: None, app_id_count: 0, context_id_count: 0 })
+                Some(crate::common::PF { min_log_level: None, app_ids: None, ecu_ids: Some([hdr, st, "ECU".to_string()].into_iter().collect()), context_ids: None, app_id_count: 0, context_id_count: 0 }.build())
             } else {
                 None
             };
